@@ -18,13 +18,13 @@ def run(ctx):
     nseq = 12 if ctx.quick() else 150
     lm = build_model_driver(ctx, 'listdl', 'ExtractListDl.v', 'listdl_driver.ml')
     exe = os.path.join(BUILD, 'listdl_probe')
-    rc, so, se = sh(['gcc', '-O1', '-g', '-w', '-I' + REPO + '/include', os.path.join(HARN, 'seqdiff/listdl.c'), '-o', exe])
+    rc, so, se = sh(['gcc', '-O1', '-g', '-w', '-include', REPO + '/include/config.h', '-I' + REPO + '/include', os.path.join(HARN, 'seqdiff/listdl.c'), '-o', exe])
     if rc: ctx.fail('harness', 'build of seqdiff/listdl.c', se[-600:])
     elif lm: diff_run(ctx, 'ListDl.lstep vs urcu/list.h (next/prev of every node after each operation)', exe, lm, [[exe, '600', str(ctx.seed * 100 + i)] for i in range(nseq)], 'harness/seqdiff/listdl.c')
     am = build_model_driver(ctx, 'bparena', 'ExtractBpArena.v', 'bparena_driver.ml')
     for tag, defs in (('2', ['-DURCU_VERIF_INIT_READER_COUNT=2']), ('default', [])):
         exe = os.path.join(BUILD, 'bparena_probe_' + tag)
-        rc, so, se = sh(['gcc', '-O1', '-g', '-w', '-DURCU_VERIF'] + defs + ['-I' + REPO + '/include', '-I' + REPO + '/src', os.path.join(HARN, 'seqdiff/bparena.c')] + SRCS + ['-o', exe, '-lpthread'])
+        rc, so, se = sh(['gcc', '-O1', '-g', '-w', '-include', REPO + '/include/config.h', '-DURCU_VERIF'] + defs + ['-I' + REPO + '/include', '-I' + REPO + '/src', os.path.join(HARN, 'seqdiff/bparena.c')] + SRCS + ['-o', exe, '-lpthread'])
         if rc: ctx.fail('harness', 'build of seqdiff/bparena.c (%s)' % tag, se[-600:]); continue
         if am: diff_run(ctx, 'BpArena.alloc/free vs arena_alloc/expand_arena/cleanup_thread of urcu-bp.c (INIT_READER_COUNT %s)' % tag, exe, am,
                         [[exe, '500', str(ctx.seed * 100 + i), str(i % 3)] for i in range(nseq)], 'harness/seqdiff/bparena.c')
